@@ -93,7 +93,7 @@ CHECKS = {
          "A declaration that collides with an import name chosen at an earlier write is outside the domain (the earlier file was valid when written). ForEachFile order is not compared.",
          "property-based stateful testing against a reference model of the import sets, go/types on the written files"),
  "C07": ("exploration",
-         "One call of / reference to one of 21 generic functions (all constraint kinds, type parameters at depth inside slices, maps, pointers, channels, functions and generic structs, variadic tails, un-inferable parameters) per generated program, with arguments drawn from typed values, untyped constants of every kind, nil, literals, generic function values, nested generic calls, optional full/partial explicit instantiation, spread, typed result contexts and assignment to typed function variables. go/types decides accept/reject (must agree); for accepted programs the builder's reported result/reference type must equal go/types' and the canonical dump of the emitted code, which includes Info.Instances of every generic callee, must equal the source's.",
+         "One call of / reference to one of 21 generic functions (all constraint kinds, type parameters at depth inside slices, maps, pointers, channels, functions and generic structs, variadic tails, un-inferable parameters) per generated program, with arguments drawn from typed values, untyped constants of every kind, nil, literals, generic function values, nested generic calls, optional full/partial explicit instantiation, spread, typed result contexts and assignment to typed function variables. go/types decides accept/reject (must agree); for accepted programs the builder's reported result/reference type must equal go/types' and the canonical dump of the emitted code, which includes Info.Instances of every generic callee, must equal the source's. Plus histories of 2-5 generic calls issued in one package through CallWithEx (which returns the error of a rejected call): verdict and result type of every call must equal those of the call alone as decided by go/types, in particular after rejected calls.",
          "DESIGN.md §7 C07",
          "go/types (go1.23) is the oracle; inference itself is go/types' routine reached through linkname, the adapter around it is what is tested.",
          "property-based testing: generated generic calls, differential against go/types (verdict, Info.Instances, types)"),
